@@ -6,9 +6,10 @@ tvars == <<vars, l>>
 Ev(name) == l <= Len(T) /\ T[l].e = name /\ l' = l + 1
 R == T[l]
 TReset == Ev("Reset") /\ f' = "old" /\ tmp' = "none" /\ pc' = "start" /\ written' = 0 /\ crashed' = FALSE
-TFs == Ev("Fs") /\ FsCall(R.fn, R.tmp, R.final)
+TFs == Ev("Fs") /\ FsCall(R.fn, R.tmp, R.final, R.failed)
+TAfterFail == Ev("AfterFail") /\ AfterFail(R.final, R.ret)
 TAfter == Ev("AfterCrash") /\ AfterCrash(R.final)
-TraceNext == TReset \/ TFs \/ TAfter
+TraceNext == TReset \/ TFs \/ TAfter \/ TAfterFail
 TraceInit == Init /\ l = 1
 TraceSpec == TraceInit /\ [][TraceNext]_tvars
 ASSUME TLCSet(1, 0)
